@@ -36,7 +36,14 @@ def gen_case(seed, tier, index=0):
         prog['k'] = rr.choice([1, 2, 3, 5, 10, 12])
         n = rr.choice([1, 2, 3])
         prog['reloads'] = sorted(rr.sample(range(0, prog['k'] + 1), min(n, prog['k'] + 1)))
-        return {'kind': 'loop', 'prog': prog, 'cycles': rr.choice([1, 1, 2, 4])}
+        cycles = rr.choice([1, 1, 2, 4])
+        if rr.random() < 0.3:
+            # two DoWhile documents, iterated in a seeded interleaving; reloads at positions of that interleaving
+            prog['k'] = rr.choice([1, 2, 3, 10])
+            e2.add_second_loop(rr, prog)
+            total = len(prog['order'])
+            prog['reloads'] = sorted(rr.sample(range(0, total + 1), min(n, total + 1)))
+        return {'kind': 'loop', 'prog': prog, 'cycles': cycles}
     from checks import c15
     pkg = c15.gen_dsl_package(rr, 0) if rr.random() < 0.25 else c15.gen_flowir_package(rr, 0)
     ops = []
@@ -47,6 +54,22 @@ def gen_case(seed, tier, index=0):
 
 
 def shrink_candidates(case):
+    if case['kind'] == 'loop' and case['prog'].get('second'):
+        p = case['prog']
+        for li in (0, 1):
+            n = p['order'].count(li)
+            if n > 1:
+                c = copy.deepcopy(case)
+                idx = len(p['order']) - 1 - p['order'][::-1].index(li)
+                del c['prog']['order'][idx]
+                (c['prog'] if li == 0 else c['prog']['second'])['k'] = n - 1
+                c['prog']['reloads'] = sorted(set(min(r, len(c['prog']['order'])) for r in p['reloads']))
+                yield c
+        if case.get('cycles', 1) > 1:
+            c = copy.deepcopy(case)
+            c['cycles'] = 1
+            yield c
+        return
     if case['kind'] == 'loop':
         p = case['prog']
         if p['k'] > 1:
